@@ -170,6 +170,9 @@ RetViol(e) ==
 NewViol == LET e == Ev IN
   IF e.ev = "tx" THEN TxViol(e)
   ELSE IF e.ev = "ret" THEN RetViol(e)
+  ELSE IF e.ev = "pastBroke" THEN Check("C17", "works-whatever-the-connection-did-before", FALSE)
+                                  \cup Check("C05", "no-panic-no-hang", ~(Has(e, "panic") /\ e.panic # "nil"))
+                                  \cup (IF e["in"] = "prefix" THEN Check("C01", "honest-handshake-succeeds", FALSE) ELSE {})
   ELSE IF e.ev = "session" THEN Check("C01", "keys-agree", e.have /\ e.sikOK /\ e.k1OK /\ e.k2OK)
   ELSE IF e.ev \in {"harnessError", "prefixFailed"} THEN Check("HARNESS", e.ev, FALSE)
   ELSE IF e.ev = "metrics" /\ prevM # NoEv /\ mcall.kind # "none"
